@@ -23,6 +23,7 @@ func runC17(c *Ctx) {
 	c.NotCovered("promptness; leak-freedom as such; timeout accuracy")
 	c.Clause("C17.8 no lost wake-up on streams: every method that writes a field which the blocking loops of Read/Peek/Write test in their branch conditions calls signalRead/signalWrite on every path after the store (in itself or in the private callers that wrap it); conditional-signalling sites are frozen exceptions with reasons")
 	c.Clause("C17.17 handleCloseError sends no CONNECTION_CLOSE and installs no closed stand-in when the cause is a stateless reset or a recreation after Version Negotiation; C17.18 every deletion from the handler map is followed by the empty-map test that stops a closed single-use transport")
+	c.Clause("C17.21 the keep-alive interval is max(configured interval, PTO·3/2)")
 	c.Clause("C17.20 DialAddr / DialAddrEarly / ListenAddr / ListenAddrEarly close the UDP socket they opened on every error return")
 	c.Clause("C17.19 every struct-field channel that is signalled with a non-blocking send is created with capacity ≥ 1 (one-slot token: no lost wake-up between check and park)")
 	c.Clause("C17.16 a blocked Write that is woken re-checks shutdownErr and resetErr before it buffers data in nextFrame (closeForShutdown / CancelWrite discard that frame before waking the writer)")
@@ -55,6 +56,7 @@ func runC17(c *Ctx) {
 	c.rule("C17.18", func() { c17LastHandlerStopsListening(c) })
 	c.rule("C17.19", func() { c17SignalChannelsBuffered(c) })
 	c.rule("C17.20", func() { c17OpenedSocketClosedOnError(c) })
+	c.rule("C17.21", func() { c17KeepAliveFloor(c) })
 }
 
 // waitExceptions: blocking sites that are not woken by a shutdown-reachable signal, with the reason why that is right.
